@@ -100,7 +100,7 @@ def bmc_cubes(fn, name, K, alphabet, depth, tmo, props, nchoices=2):
 # ----------------------------------------------------------------------------- mode 2: normal-form prefix + symbolic suffix
 
 STAGES = ["queued", "pending", "pulled", "finished-ok", "finished-error", "killed-queued", "killed-pulled",
-          "timedout-queued", "timedout-pulled", "timedout-pending"]
+          "timedout-queued", "timedout-pulled", "timedout-pending", "dropped"]
 SHORT, LONG = 5, 1000
 
 
@@ -113,7 +113,7 @@ def nf_prefix_ops(stages, sym):
     J = len(stages)
     wk = 0
     pend = [j for j in range(J) if STAGES[stages[j]] in ("pending", "timedout-pending")]
-    pulled = [j for j in range(J) if STAGES[stages[j]] in ("pulled", "finished-ok", "finished-error", "killed-pulled", "timedout-pulled")]
+    pulled = [j for j in range(J) if STAGES[stages[j]] in ("pulled", "finished-ok", "finished-error", "killed-pulled", "timedout-pulled", "dropped")]
     queued = [j for j in range(J) if STAGES[stages[j]] in ("queued", "killed-queued", "timedout-queued")]
     jid = 0
     ids = {}
@@ -137,8 +137,8 @@ def nf_prefix_ops(stages, sym):
         ops.append((qsim.PULL, w, 3, 0))
         if st == "finished-ok":
             ops.append((qsim.FINISH_ID, w, ids[j], 0))
-        elif st == "finished-error":
-            ops.append((qsim.FINISH_ID, w, ids[j], 1))
+        elif st in ("finished-error", "dropped"):
+            ops.append((qsim.FINISH_ID, w, ids[j], 1))  # error => time-to-live of 10
         elif st == "killed-pulled":
             ops.append((qsim.KILL, ids[j] - 1, 0, 0))
     for j in queued:
@@ -149,7 +149,12 @@ def nf_prefix_ops(stages, sym):
         ids[j] = jid
         if st == "killed-queued":
             ops.append((qsim.KILL, ids[j] - 1, 0, 0))
-    if any(STAGES[x].startswith("timedout") for x in stages):
+    if any(STAGES[x] == "dropped" for x in stages):
+        # watchdog gives finished jobs their drop deadline, the clock passes it, the next watchdog run drops them
+        ops.append((qsim.WATCHDOG, 0, 0, 0))
+        ops.append((qsim.TICK, 0, 0, 30))
+        ops.append((qsim.WATCHDOG, 0, 0, 0))
+    elif any(STAGES[x].startswith("timedout") for x in stages):
         ops.append((qsim.TICK, 0, 0, 10))
     return ops
 
